@@ -219,6 +219,16 @@ def torn_read(ck, ctx, rule="torn-read"):
             c = callee_of(t)
             if "std::io::Read" in c:
                 prims.setdefault(c.split("::")[-1], set()).add(fn)
+    # ... and no short read goes unnoticed: the Result of every read_exact is propagated with `?` (or returned)
+    for fn in sorted(n for n in F.bodies if n.startswith("db::Reader::") and F.bodies[n].kind != "promoted"):
+        fb = F.body(fn)
+        k_ = 0
+        for bb, t in fb.calls():
+            if "std::io::Read" in callee_of(t) and callee_of(t).endswith("read_exact"):
+                tr_ = C.try_of(ctx, fb, bb)
+                direct_ret = not t["dest"]["p"] and t["dest"]["l"] == 0
+                ck.ob(rule, "%s|read_exact#%d|propagated" % (fn, k_), tr_ is not None or direct_ret, "the outcome of read_exact in %s is propagated (a short read must surface as UnexpectedEof, not be decoded as data)" % fn, span=t["loc"], fn=fn)
+                k_ += 1
     ck.ob(rule, "read-primitive", set(prims) == {"read_exact"}, "db::Reader reads only with read_exact: %s" % {k: sorted(v) for k, v in prims.items()}, span="db::Reader")
     # partial records have no effect: in read_build / read_path the graph/hash mutations come after the last read
     for fn, muts in ((RB, ("graph::Build::set_discovered_ins", "graph::Hashes::set")), ("db::Reader::read_path", ("graph::GraphFiles::id_from_canonical", "densemap::DenseMap::push", "std::collections::HashMap::insert"))):
